@@ -177,6 +177,13 @@ Fixpoint tree (l : L) (c : ctx) (bs : binds) : option value :=
       | _ => None
       end
   | Layout.LConst _ _ => Some VUnit
+  | Layout.LTag f _ a =>
+      match eval_atom bs f with
+      | Some (AZ z) => match tree a (set_tag c z) bs with Some x => Some (VPair (VAtom (AZ z)) x) | None => None end
+      | _ => None
+      end
+  | Layout.LSel k a b => if ctag c =? k then tree a c bs else tree b c bs
+  | Layout.LFail => None
   end.
 
 (* ---------- structural equality of value trees ---------- *)
